@@ -214,7 +214,7 @@ def check(R, F):
     R.extra['functions_analysed'] = [f.gpath for f in fns]
     R.extra['trusted_functions'] = trusted
     R.note('name::wire / Name wrappers are covered by the C14 rules (their summaries are re-established below)')
-    e5.check_pres(R, F, S, 'totality.pre')
+    e5.check_pres(R, F, S, 'totality.pre', only=('name::wire::parse_pointer',))
     check_read_post(R, F, S)
     for gp, mn in ((RD + 'std13::validate_character_string', 1), (RD + 'opt::validate_option', 4)):
         e5.verify_post(R, F, S, 'summary', gp, [((), 'Ok(n) => %d <= n <= len(octets)' % mn, lambda an, e, mn=mn: [le(lin(c=mn), e), le(e, lin('len:(*_1)'))])])
